@@ -156,7 +156,7 @@ def judge(ctx, st, api, method, params, rpcid, version, mresp, notify, cname, co
             exp["error"] = None
     else:
         # what the harness passed to the Fault constructor (not what the object holds afterwards)
-        fcode, fmsg, fdata = getattr(params, "_vf_args", (params.faultCode, params.faultString, params.data))
+        fcode, fmsg, fdata = _FAULT_ARGS.get(id(params), (params.faultCode, params.faultString, params.data))
         err = {"code": fcode, "message": fmsg}
         if fdata is not None:
             err["data"] = gen.jn(fdata)
@@ -254,10 +254,19 @@ def one(ctx, st, jr, api, method, params, rpcid, version, mresp, notify, cname, 
 def _ptrepr(params):
     import jsonrpclib
     if isinstance(params, jsonrpclib.Fault):
-        a = getattr(params, "_vf_args", (params.faultCode, params.faultString, params.data))
+        a = _FAULT_ARGS.get(id(params), (params.faultCode, params.faultString, params.data))
         return "Fault(%s,%s,%s,%s)" % (gen.trepr(a[0]), gen.trepr(a[1]), gen.trepr(a[2]),
                                        getattr(params.config, "use_jsonclass", None))
     return gen.trepr(params)
+
+
+_FAULT_ARGS = {}     # id(Fault) -> (code, message, data) as passed by the harness (the objects are kept alive below)
+_FAULT_KEEP = []
+
+
+def _remember(fault, args):
+    _FAULT_ARGS[id(fault)] = args
+    _FAULT_KEEP.append(fault)
 
 
 def faults():
@@ -270,7 +279,7 @@ def faults():
                 for cfg in (None, jsonrpclib.config.Config(use_jsonclass=False)):
                     f = jsonrpclib.Fault(code, msg, data=data) if cfg is None else \
                         jsonrpclib.Fault(code, msg, data=data, config=cfg)
-                    f._vf_args = (code, msg, data)
+                    _remember(f, (code, msg, data))
                     out.append(f)
     return out
 
@@ -329,7 +338,7 @@ def run(ctx):
     for code, msg, data, rid in itertools.product((-32603, 7), ("m",), (None, 0, {"a": 1}), (None, 0, 5, "x")):
         for cname, cfg in cfgs:
             f = jsonrpclib.Fault(code, msg, rpcid=rid, config=cfg, data=data)
-            f._vf_args = (code, msg, data)
+            _remember(f, (code, msg, data))
             for how in ("response", "dump"):
                 try:
                     got = json.loads(f.response()) if how == "response" else gen.jn(f.dump())
@@ -373,7 +382,7 @@ def run(ctx):
                 continue
             fc, fm = rng.choice([gen.rand_int(rng), -32000, -32700]), gen.rand_str(rng)
             f = jsonrpclib.Fault(fc, fm, data=data)
-            f._vf_args = (fc, fm, data)
+            _remember(f, (fc, fm, data))
             one(ctx, st, jr, rng.choice(("dumps", "dump")), None, f, rpcid, version, True, None, cname, cfg)
 
 
